@@ -762,6 +762,7 @@ impl Family for TlsGarbage {
 /// shape of the statement would. Only the no-panic / no-wedge oracle applies here.
 struct Lifecycles {
     depth: usize,
+    two: bool,
 }
 impl Lifecycles {
     fn alpha() -> Vec<super::registry::Action> {
@@ -778,17 +779,37 @@ impl Lifecycles {
             Action::Close { id: 1 },
         ]
     }
+    /// with a second statement next to the first (and a chunk for the middle parameter)
+    fn alpha2() -> Vec<super::registry::Action> {
+        use super::registry::{Action, Bind};
+        let mut a = Self::alpha();
+        a.extend(vec![
+            Action::Long { id: 1, param: 1, chunk: 1 },
+            Action::Prepare { id: 2, n: 2, ok: true },
+            Action::Exec { id: 2, bind: Bind::A, null_first: false, shim_ignores: 0 },
+            Action::Long { id: 2, param: 1, chunk: 1 },
+            Action::Close { id: 2 },
+        ]);
+        a
+    }
+    fn alphabet(&self) -> Vec<super::registry::Action> {
+        if self.two {
+            Self::alpha2()
+        } else {
+            Self::alpha()
+        }
+    }
     fn hist(&self, idx: u64) -> Vec<super::registry::Action> {
-        let a = Self::alpha();
-        digits(idx, &vec![a.len() as u64; self.depth]).iter().map(|i| a[*i as usize]).collect()
+        let a = self.alphabet();
+        digits(idx / 2, &vec![a.len() as u64; self.depth]).iter().map(|i| a[*i as usize]).collect()
     }
 }
 impl Family for Lifecycles {
     fn name(&self) -> String {
-        format!("statement-lifecycles-depth-{}", self.depth)
+        format!("statement-lifecycles{}-depth-{}", if self.two { "-two-statements" } else { "" }, self.depth)
     }
     fn len(&self) -> u64 {
-        (Self::alpha().len() as u64).pow(self.depth as u32)
+        2 * (self.alphabet().len() as u64).pow(self.depth as u32)
     }
     fn run(&self, idx: u64, st: &mut Stats) -> Result<(), Violation> {
         let h = self.hist(idx);
@@ -902,7 +923,10 @@ pub fn build(quick: bool) -> Check {
     }
     families.push(Box::new(TlsGarbage::new(quick)));
     for d in 1..=(if quick { 4 } else { 6 }) {
-        families.push(Box::new(Lifecycles { depth: d }));
+        families.push(Box::new(Lifecycles { depth: d, two: false }));
+    }
+    for d in 3..=(if quick { 5 } else { 6 }) {
+        families.push(Box::new(Lifecycles { depth: d, two: true }));
     }
     families.push(Box::new(Utf8Texts));
     families.push(Box::new(LenencExtremes));
@@ -913,7 +937,7 @@ pub fn build(quick: bool) -> Check {
     Check {
         id: "C20",
         level: "model_checking",
-        rule: "client byte strings: all raw strings of length <= 5/7 over a 13-symbol alphabet of command and marker bytes (after handshake+PREPARE, and as the handshake itself); all framed payloads of length <= 2/3 over all 256 byte values; COM_STMT_EXECUTE parameter blocks (4 bitmaps x 3 flags x 256 type codes x unsigned x values of <= 3 bytes over 6 marker bytes, with and without a preceding valid bind; 1/2/9 declared parameters); every prefix of well-formed bind and reuse blocks x NULL bitmaps x pending long data x earlier bind; for 5 valid conversations and 3 handshake forms every single-byte substitution by every value (this includes every sequence id 0..255 and every length-field value on every packet), every truncation, deletion and duplication; two-fragment requests with every pair of fragment ids from a boundary set; variable-length parameter values behind every length-prefix form announcing 0..2^64-1 bytes (and every length byte for the temporal types) with 0..300 bytes present; requests of 2^24-1 bytes and more, well-formed or with a missing / lying continuation, under a read boundary at every position around each packet header and the end of the stream; every statement lifecycle of <= 4 (thorough: 6) actions over re-prepares with 1/2/3 parameters, bind/reuse executions, long data and close, encoded by a client that follows the re-prepares and by one that does not; query / prepare / init-db / USE texts with a multi-byte character at every byte offset 0..12, whole, cut inside the character, and behind a stray continuation byte; an SSL request (to a shim that offers TLS) followed by anything but a TLS handshake: every 1- (thorough: 2-) byte string, TLS record headers of every content type / version / length class with partial bodies, a plaintext handshake response, a recorded ClientHello with every byte damaged five ways and every truncation - the shim must never be reached. Oracle: run_on returns (Ok or Err) without panicking and within 200000 transport operations; flushed output is well-framed. Non-trivial = input differs from a valid conversation.".into(),
+        rule: "client byte strings: all raw strings of length <= 5/7 over a 13-symbol alphabet of command and marker bytes (after handshake+PREPARE, and as the handshake itself); all framed payloads of length <= 2/3 over all 256 byte values; COM_STMT_EXECUTE parameter blocks (4 bitmaps x 3 flags x 256 type codes x unsigned x values of <= 3 bytes over 6 marker bytes, with and without a preceding valid bind; 1/2/9 declared parameters); every prefix of well-formed bind and reuse blocks x NULL bitmaps x pending long data x earlier bind; for 5 valid conversations and 3 handshake forms every single-byte substitution by every value (this includes every sequence id 0..255 and every length-field value on every packet), every truncation, deletion and duplication; two-fragment requests with every pair of fragment ids from a boundary set; variable-length parameter values behind every length-prefix form announcing 0..2^64-1 bytes (and every length byte for the temporal types) with 0..300 bytes present; requests of 2^24-1 bytes and more, well-formed or with a missing / lying continuation, under a read boundary at every position around each packet header and the end of the stream; every statement lifecycle of <= 4 (thorough: 6) actions over re-prepares with 1/2/3 parameters, bind/reuse executions, long data and close, encoded by a client that follows the re-prepares and by one that does not, and of <= 5 (6) actions with a second statement (prepare, execute, long data, close) next to it; query / prepare / init-db / USE texts with a multi-byte character at every byte offset 0..12, whole, cut inside the character, and behind a stray continuation byte; an SSL request (to a shim that offers TLS) followed by anything but a TLS handshake: every 1- (thorough: 2-) byte string, TLS record headers of every content type / version / length class with partial bodies, a plaintext handshake response, a recorded ClientHello with every byte damaged five ways and every truncation - the shim must never be reached. Oracle: run_on returns (Ok or Err) without panicking and within 200000 transport operations; flushed output is well-framed. Non-trivial = input differs from a valid conversation.".into(),
         assumptions: vec![
             "random bytes are not used as a deciding step (sampling is outside this family)".into(),
             "the shim iterates all parameters and reads them with into_inner(); the panicking From<Value> conversions are the shim author's calls, not run_on's".into(),
